@@ -180,6 +180,27 @@ int main(int argc, char** argv) {
                 }
             }
         }
+        // arguments with structure: perfect squares and cubes of composite roots, smooth numbers with repeated factors
+        for (long t = 0; t < budget; ++t) {
+            const unsigned long long r = (t % 4 == 0) ? (unsigned long long)rng.range(256, 300) : (unsigned long long)rng.range(256, 65535);
+            args.push_back((uint32_t)(r * r));
+            const unsigned long long c = (unsigned long long)rng.range(2, 1625);
+            args.push_back((uint32_t)(c * c * c));
+            static const uint32_t SP[] = {2, 3, 5, 7, 11, 13, 17, 19, 23, 29, 31, 37, 41, 43, 47, 251, 257, 65521};
+            unsigned long long v = 1;
+            for (int q = 0; q < 12; ++q) {
+                const uint32_t f = SP[rng.range(0, 17)];
+                if (v * f <= 4294967295ULL) {
+                    v *= f;
+                }
+            }
+            if (v >= 2) {
+                args.push_back((uint32_t)v);
+            }
+        }
+        for (unsigned long long r : {258ULL, 259ULL, 46340ULL, 65535ULL, 65534ULL, 30030ULL, 510ULL}) {
+            args.push_back((uint32_t)(r * r));
+        }
         args.push_back(4294967291u);   // largest 32-bit prime
         args.push_back(4294967279u);
         args.push_back(2147483647u);   // 2^31 - 1 (prime)
